@@ -28,6 +28,47 @@ CHECKS = {
         "level_note": "Theorems are about the Lean model; the tie is differential. The field array limit (64 MiB) is enforced by the receive loop before decoding; decode_iff_valid carries it as a side condition.",
         "assumptions": ["the header region starts at offset 0 of the message buffer (16 = 0 mod 8), as the code's sub-cursor assumes"],
     },
+    "C10": {
+        "id": "C10",
+        "engine": "conn",
+        "trusted_base": COMMON_TB + [
+            "modelled, not verified (kernel assumptions, observed by the engine on a real socket): sendmsg on a connected Unix stream socket takes min(k, offered) bytes for a kernel-chosen k, or refuses with EAGAIN, or fails, and changes nothing in the two latter cases; accepted bytes keep their order; SCM_RIGHTS descriptors attached to a sendmsg travel with the first byte that call queued; calc_timeout_left is an input event of write()",
+        ],
+        "level_text": "Proved in Lean for EVERY message (any header/body/descriptor lists), EVERY list of caller steps (each write_once outcome chosen by the kernel: any short count, EAGAIN, error; suspend/resume anywhere) and every event list of write(): the slice expression never panics, bytes_sent is the sum of the reported counts and never exceeds the total, the peer has received exactly the first bytes_sent bytes of header ++ body and the next sendmsg is offered exactly the unsent rest from the right offsets on both sides of the header/body seam (wire_is_prefix); descriptors are attached iff bytes_sent = 0 and are transferred at most once, exactly once as soon as one byte was accepted (fds_exactly_once); a failed call is invisible; all_bytes_written <-> counter = total <-> the peer has the whole message (complete_iff_all); write() returns Ok(serial) only then, never panics, and terminates within total calls when every sendmsg takes a byte; suspend/resume at any point of any history changes nothing (resume_continues); the reported serial is the header's bytes 8..12 in the message's byte order and what the peer received (reported_serial_is_header_serial, with C05's marshalHeader and C13's counter); Drop panics exactly on a partially sent message. Tied on a REAL DuplexConn with a small SO_SNDBUF against an in-process peer in lock step: messages from header-only to multi-MiB with 0-3 descriptors, observed short counts / EAGAIN are the model's inputs; what the kernel holds after every call, all_bytes_written, SCM_RIGHTS deliveries (by inode), the byte stream hash, the serial and the final drop are compared, and intact-once delivery is checked directly at the peer.",
+        "level_note": "Theorems are about the Lean model; kernel behaviour is an assumption (observed, not proved). A kernel answering 0 bytes to a non-empty offer for ever would keep write() spinning (write_spins_on_zero_accepts states this corner; Linux blocks or returns EAGAIN instead).",
+        "assumptions": ["between into_progress and resume no other send_message overwrites the connection's header buffer (documented precondition of resume)", "the peer's reads do not reorder the stream"],
+    },
+    "C11": {
+        "id": "C11",
+        "engine": "conn",
+        "trusted_base": COMMON_TB + [
+            "modelled, not verified: the process descriptor table (dup returns a number not open at that moment, close removes it), Arc as a reference count whose last decrement runs Drop, the socket as a FIFO of messages carrying open-file identities (SCM_RIGHTS: the receiver gets new descriptors for the same open files, at most 10 per message fit the control buffer), fstat (dev, inode) as the identity of an open file",
+        ],
+        "level_text": "Proved in Lean over ALL histories of push (typed, raw, multi, nested) / failing push / reset / send / receive / refused receive / unmarshal / take / dup / clone / drop: an invariant of the descriptor table (every library-created descriptor is open and referenced by exactly the live handles that hold it, or was taken, or was closed exactly once; reference counts are exact) holds initially and is preserved by every operation, hence no_double_close (the table's close-on-closed error state is unreachable), leak_free (when every handle is dropped, the open descriptors are exactly the caller's own and the taken ones), caller-owned descriptors are never closed or changed by the library (push duplicates: push_dups, push_raw_dups with index = position of the duplicate in the body's list), a failed multi-push closes exactly the duplicates it made (push_fail_rolls_back), UNIX_FDS = length of the list that is sent (unix_fds_header, with C05), a receiver gets descriptors for the same open files attached to that same message in FIFO order and no other (receive_same_files, per_message_fifo), a refused frame leaks nothing, an index beyond the list is an error (unmarshal_index), handles held are open (held_handle_open). Tied by random histories over REAL descriptors (temp files with distinct inodes) on a real DuplexConn with an echoing in-process peer: after EVERY step /proc/self/fd (minus the baseline) with the (dev, inode) behind each descriptor, the call's result and the number of close calls (verif hook) are compared with the model; leaks, double closes (EBADF via the hook log), foreign descriptors and wrong files are checked directly.",
+        "level_note": "Theorems are about the Lean model; the tie is differential over sampled histories with an exact audit of the real descriptor table. Limits that are part of the statements: at most 10 descriptors per received message (cmsg buffer; README documents it); send transmits the descriptors that were not taken out of the body.",
+        "assumptions": ["no other thread of the harness opens or closes descriptors during a history", "descriptor numbers are abstracted to creation-order ids"],
+    },
+    "C12": {
+        "id": "C12",
+        "engine": "fdconc",
+        "trusted_base": COMMON_TB + [
+            "assumed, not proved: SeqCst atomics behave as an interleaving of atomic steps; Arc is an atomic counter whose last decrement runs Drop; dup succeeds and returns a number that is not open at that moment; the verif_hooks schedule points (cargo feature, off by default) sit immediately before each atomic operation / system call of UnixFdInner and do not change its behaviour",
+        ],
+        "level_text": "Proved in Lean for ANY number of threads, ANY programs over take / get / dup / clone / drop and ANY schedule at the granularity of single atomic steps (load, compare_exchange, Arc increment / decrement, dup and close system calls): at most one take succeeds and it returns the original descriptor (at_most_one_take, take_returns_original); every operation invoked after a successful take has returned reports the descriptor as gone, on every clone, for ever (gone_after_take, taken_is_permanent); the strong count equals the number of live handles; the original is never closed while a handle is alive (not_closed_before_last_drop), never closed if it was taken (never_closed_if_taken), and closed exactly once - by the last drop - iff nobody took it, in every complete execution (closed_once_iff_not_taken). Tied through the verif_hooks schedule points: a deterministic scheduler over REAL threads running the REAL UnixFd code enumerates EVERY interleaving of small program sets (2 threads x <= 3 ops; thorough 3 threads) on clones of a handle wrapping a real descriptor; for every complete schedule the per-thread results, the dup/close log and the kernel state of the original are compared with the model run on the same schedule, and the property is evaluated directly on the execution.",
+        "level_note": "Theorems are about the Lean small-step model; the memory model is assumed sequentially consistent at hook granularity (the code uses SeqCst). The implementation-side exploration is exhaustive only for the enumerated program sets.",
+        "assumptions": ["orig != -1 (-1 is the cell's marker for taken)", "each thread drops the handles it still owns at the end of its program"],
+        "timeout_thorough": 7000,
+    },
+    "C14": {
+        "id": "C14",
+        "engine": "conn",
+        "trusted_base": COMMON_TB + [
+            "modelled, not verified: HashMap<serial, message> as an association list, VecDeque as a list, the socket as the FIFO of whole messages the peer wrote (reassembly is C09), send of an error reply as an append to the peer's inbox, the filter as a verdict carried by each message",
+        ],
+        "level_text": "Proved in Lean for ALL finite histories interleaving arrivals (replies, errors, signals, calls; distinct reply serials) with try_get_* / wait_* / refill_once / try_refill_once / refill_all under ANY filter: the concrete state refines three abstract queues plus the owed unknown-method replies (refinement, refinement_step); every accepted message is handed out at most once and, once asked for, exactly once (exactly_once); replies and errors go only to the waiter for their reply serial and are that reply (right_consumer, right_consumer_by_kind, response_is_the_reply); signals and calls come out in arrival order (fifo); rejected messages are never handed out (rejected_never_delivered); each rejected call is answered by exactly one unknown-method error addressed to its caller - written immediately or returned by refill_all (rejected_call_answered_once); no unwrap panics on well-formed arrivals (no_panic; panic_reachable shows the excluded input: a reply without reply serial); a wait blocks only when the socket is drained. Tied by random histories on a REAL RpcConn over a real DuplexConn against the scripted peer (arrivals interleaved with all client operations under random filters), the whole observation log compared with the model; exactly-once, right consumer, order and the error replies read at the peer are checked directly.",
+        "level_note": "Theorems are about the Lean model; the tie is differential over sampled histories. Blocking waits are only issued when the data is already in the socket.",
+        "assumptions": ["reply serials of arriving replies are distinct (the property's hypothesis)", "arriving messages are well-formed frames (C06/C09)"],
+    },
     "C16": {
         "id": "C16",
         "engine": "wire",
@@ -156,6 +197,8 @@ ENGINES = [
      "kind_free_text": "Rust harness: scripted auth servers, forked uid children, address strings under a controlled environment"},
     {"name": "conn", "path": "harness/src", "serves_properties": [p for p in sorted(CHECKS.keys()) if CHECKS[p].get("engine") == "conn"],
      "kind_free_text": "Rust harness: real DuplexConn connected through the real auth code to an in-process scripted peer"},
+    {"name": "fdconc", "path": "harness/src/eng_c12.rs", "serves_properties": [p for p in sorted(CHECKS.keys()) if CHECKS[p].get("engine") == "fdconc"],
+     "kind_free_text": "Rust harness: deterministic scheduler over real threads running the real UnixFd code through the verif_hooks schedule points; enumerates every interleaving of small program sets"},
 ]
 
 # reasons for properties that are not claimed (yet)
